@@ -103,7 +103,8 @@ M("C12", "send-no-zero-check", SOCK, "                if sent == 0:\n           
 M("C12", "send-total-assign", SOCK, "total_sent += sent", "total_sent = sent", ["D12.5"])
 M("C12", "send-cond-le", SOCK, "while total_sent < len(msg):", "while total_sent < len(msg) - 1:", ["D12.5"])
 M("C12", "recv-direct-in-loop", SOCK, "            while len(data) - HEADER_SIZE < data_len:\n                data += self._recv(256)", "            while len(data) - HEADER_SIZE < data_len:\n                data += self.sock.recv(256)", ["D12.1"])
-M("C12", "raise-oserror", SOCK, "            raise CommError(\"socket connection broken.\")\n        return chunk", "            raise ConnectionError(\"socket connection broken.\")\n        return chunk", ["D12.1", "D12.4"])
+# (removed: `_recv` raising ConnectionError for an empty chunk - equivalent at the interface: `receive` maps every socket error,
+# ConnectionError included, to CommError, and `_recv` has no other caller)
 T("C12", "completion-rearranged", SOCK, "while len(data) - HEADER_SIZE < data_len:", "while len(data) < HEADER_SIZE + data_len:")
 T("C12", "header-4", SOCK, "            while len(data) < HEADER_SIZE:", "            while len(data) < 4:")
 T("C12", "empty-len", SOCK, "        if not chunk:\n            raise CommError", "        if len(chunk) == 0:\n            raise CommError")
